@@ -132,6 +132,7 @@ class Emitter(object):
         L.append("  putb(p + \"complete\", v.IsComplete());")
         L.append("  putb(p + \"size_known\", v.SizeIsKnown());")
         L.append("  if (v.SizeIsKnown()) put(p + \"size\", valstr(v.IntrinsicSizeIn%s().Read()));" % unit)
+        L.append("  put(p + \"maxsize\", valstr(V::MaxSizeIn%s().Read())); put(p + \"minsize\", valstr(V::MinSizeIn%s().Read()));" % (unit, unit))
         for f in s.all_named_fields():
             L.append("  {")
             L.append("    auto h_ = v.has_%s();" % f.name)
